@@ -2,4 +2,5 @@ SPECIFICATION Spec
 CONSTANT Deep = TRUE
 INVARIANT EmitInv
 INVARIANT OrderIrrelevant
+INVARIANT BaseAccepted
 CHECK_DEADLOCK FALSE
